@@ -336,6 +336,14 @@ def run(ctx):
             p[i], p[j] = p[j], p[i]
             dih.append(Perm(p))
             dih.append(D.random_perm(rng, n))
+    # every affine map i -> a*i + b (mod n) with a unit a: a member exactly for a = +-1 (for n = 8, 12, 15, 16, 20, 21, 24
+    # there are other units with a*a = 1, e.g. 3*3 = 1 mod 8)
+    import math as _math
+    for n in range(8, 17 if quick else 31):
+        for a in range(1, n):
+            if _math.gcd(a, n) == 1:
+                for b in (range(0, n, 3) if quick and n > 12 else range(n)):
+                    dih.append(Perm([(a * i + b) % n for i in range(n)]))
     ctx.run("C12.family.dihedral", dih, chunk=50,
             rule="lengths 8-12 (20 thorough): every group element, transpositions and seeded permutations")
     ctx.run("C12.dihedral_group", list(range(-1, 13 if quick else 41)), chunk=2,
